@@ -59,6 +59,23 @@ def binomial(n, k):
     return 1./(beta(n-k+1, k+1)*(n+1))
 
 
+def _hermitenorm_coeffs(n):
+    """ Coefficients (highest power first) of the Hermite polynomial He_n
+
+    Exact integer three-term recurrence He_{r+1} = x He_r - r He_{r-1}.
+    ``np.around(hermitenorm(n).c)`` is built from the roots and is only exact
+    up to about n = 26.
+    """
+    a, b = [1], [1, 0]
+    if n == 0:
+        return np.array(a, dtype=np.float64)
+    for r in range(1, n):
+        shifted = b + [0]
+        padded = [0] * (len(shifted) - len(a)) + a
+        a, b = b, [u - r * v for u, v in zip(shifted, padded)]
+    return np.array(b, dtype=np.float64)
+
+
 def Q(dim, dfd=np.inf):
     r""" Q polynomial
 
@@ -91,7 +108,7 @@ def Q(dim, dfd=np.inf):
     j = dim
     if j <= 0:
         raise ValueError('Q defined only for dim > 0')
-    coeffs = np.around(hermitenorm(j - 1).c)
+    coeffs = _hermitenorm_coeffs(j - 1)
     if np.isfinite(m):
         for L in range((j - 1) // 2 + 1):
             a = (m + 2 - j + 2 * L) / 2.
